@@ -4,7 +4,7 @@
       input on which the code differs from the model).
     Proofs/TransEquiv.v proves the two columns equal for all inputs. *)
 From Acra Require Import Lib.Bytes Lib.Outcome Lib.GoSlice Gen.Consts Gen.Trans Model.EnvelopeChecked.
-From Acra Require Model.MysqlWire Model.PgWire Model.KeystoreV2.
+From Acra Require Model.MysqlWire Model.PgWire Model.KeystoreV2 Model.Bytea.
 Local Open Scope Z_scope.
 
 Inductive expected := XOk (vals : list bytes) | XErr | XPanic.
@@ -27,7 +27,14 @@ Inductive op :=
 | AbExtract (w : which) (data : bytes)
 | ScLen (w : which) (data : bytes)
 | PgFmt (w : which) (i : Z) (fmts : list N)
-| KsTrans (w : which) (a b : Z).
+| KsTrans (w : which) (a b : Z)
+(* xtr2: append / make / nil-sensitive parameter / loops *)
+| PLES (w : which) (isnil : bool) (b : bytes)
+| PrintCh (w : which) (c : N)
+| EncOct (w : which) (d : bytes)
+| StSum (w : which) (d : bytes) (from to : Z)
+| StScan (w : which) (d : bytes)
+| StPad (w : which) (src : bytes) (n : Z).
 
 Definition u8 (n : N) : bytes := le_enc 8 n.
 Definition z8 (z : Z) : bytes := le_enc 8 (Z.to_N (z mod 18446744073709551616)).
@@ -47,6 +54,16 @@ Definition h_validate (data : bytes) : res unit :=
   match as_validate_checked data with Ok true => Ok tt | Ok false => Err E_GENERIC | Err e => Err e | Panic => Panic end.
 Definition h_pgfmt (i : Z) (fmts : list N) : res N := PgWire.param_format (Z.to_nat i) fmts.
 Definition h_kstrans (a b : Z) : res bool := Ok (KeystoreV2.transition_valid (Z.to_N a) (Z.to_N b)).
+
+(** xtr2: hand-written specifications of the translator self-test functions (harness/xtr/selftest, not acra code) *)
+Definition st_sum (l : bytes) : N := fold_left (fun s b => ((s + b2n b) mod 4294967296)%N) l 0%N.
+Definition h_stsum (d : bytes) (from to : Z) : res N :=
+  if to <=? from then Ok 0%N
+  else if (0 <=? from) && (to <=? len d) then Ok (st_sum (sub (Z.to_nat from) (Z.to_nat (to - from)) d)) else Panic.
+Definition h_stpad (src : bytes) (n : Z) : res bytes :=
+  do k <- gmake n; Ok (firstn k src ++ repeat x00 (k - length src)).
+Definition h_ples (isnil : bool) (b : bytes) : res bytes :=
+  Ok (MysqlWire.put_lenenc_string (if isnil then None else Some b)).
 
 Definition run (o : op) : expected :=
   match o with
@@ -84,6 +101,17 @@ Definition run (o : op) : expected :=
   | PgFmt H i f => canon (fun n => [u8 n]) (h_pgfmt i f)
   | KsTrans T a b => canon (fun x => [flag x]) (KeyStateTransitionValid a b)
   | KsTrans H a b => canon (fun x => [flag x]) (h_kstrans a b)
+  | PLES T i b => canon (fun x => [x]) (PutLengthEncodedString i b)
+  | PLES H i b => canon (fun x => [x]) (h_ples i b)
+  | PrintCh T c => canon (fun x => [flag x]) (IsPrintableEscapeChar (n2b c))
+  | PrintCh H c => XOk [flag (Bytea.is_printable c)]
+  | EncOct T d => canon (fun x => [x]) (EncodeToOctal d)
+  | EncOct H d => XOk [Bytea.encode_octal d]
+  | StSum T d a b => canon (fun x => [u8 x]) (Selftest_SumWindow d a b)
+  | StSum H d a b => canon (fun x => [u8 x]) (h_stsum d a b)
+  | StScan _ d => canon (fun '(c, t) => [z8 c; z8 t]) (Selftest_ScanRecords d)
+  | StPad T s n => canon (fun x => [x]) (Selftest_PadCopy s n)
+  | StPad H s n => canon (fun x => [x]) (h_stpad s n)
   end.
 
 Fixpoint list_bytes_eqb (a b : list bytes) : bool :=
